@@ -30,6 +30,11 @@ import (
 )
 
 func (s *rpcServer) processRPC(ctx context.Context, rpcReq *rpcbackend.RPCRequest) (*rpcbackend.RPCResponse, error) {
+	if rpcReq == nil {
+		// A null entry in a batch array
+		err := i18n.NewError(ctx, signermsgs.MsgInvalidRequest)
+		return rpcbackend.RPCErrorResponse(err, nil, rpcbackend.RPCCodeInvalidRequest), err
+	}
 	if rpcReq.ID == nil {
 		err := i18n.NewError(ctx, signermsgs.MsgMissingRequestID)
 		return rpcbackend.RPCErrorResponse(err, rpcReq.ID, rpcbackend.RPCCodeInvalidRequest), err
